@@ -722,6 +722,53 @@ def spell(lang, n):
     raise ValueError(lang)
 
 
+def spell_ordinal(lang, n):
+    """Compact standard spelling of the n-th ordinal (masculine/base form) for the compounding languages."""
+    if lang == 'de':
+        U = {1: 'erste', 2: 'zweite', 3: 'dritte', 4: 'vierte', 5: 'fünfte', 6: 'sechste', 7: 'siebte', 8: 'achte', 9: 'neunte',
+             10: 'zehnte', 11: 'elfte', 12: 'zwölfte'}
+        r = n % 100
+        head = n - r
+        hs = spell('de', head) if head else ''
+        if r == 0:
+            return spell('de', n) + 'ste'
+        if r in U:
+            return hs + U[r]
+        if r < 20:
+            return hs + spell('de', r) + 'te'
+        return hs + spell('de', r) + 'ste'
+    if lang == 'nl':
+        U = {1: 'eerste', 2: 'tweede', 3: 'derde', 4: 'vierde', 5: 'vijfde', 6: 'zesde', 7: 'zevende', 8: 'achtste', 9: 'negende',
+             10: 'tiende', 11: 'elfde', 12: 'twaalfde'}
+        r = n % 100
+        head = n - r
+        hs = spell('nl', head) if head else ''
+        if r == 0:
+            return spell('nl', n) + 'ste'
+        if r in U:
+            return hs + U[r]
+        if r < 20:
+            return hs + spell('nl', r) + 'de'
+        return hs + spell('nl', r) + 'ste'
+    if lang == 'it':
+        U = {1: 'primo', 2: 'secondo', 3: 'terzo', 4: 'quarto', 5: 'quinto', 6: 'sesto', 7: 'settimo', 8: 'ottavo', 9: 'nono', 10: 'decimo'}
+        if n in U:
+            return U[n]
+        c = spell('it', n)
+        if n % 100 == 10:
+            return c[:-5] + 'decimo'           # centodecimo, not *centodiecesimo
+        if c.endswith('tré'):
+            return c[:-3] + 'treesimo'
+        if c.endswith('tre'):
+            return c + 'esimo'                 # centotreesimo
+        if c.endswith('sei'):
+            return c + 'esimo'
+        if c.endswith('mila'):
+            return c[:-4] + 'millesimo'
+        return c[:-1] + 'esimo'
+    raise ValueError(lang)
+
+
 def rule_split_closure(ctx, rep, langs=('de', 'it', 'nl')):
     R = 'A3-SPLIT-CLOSURE'
     rep.rule(R, 'splitter patterns and arm keys agree: every pattern has an arm, every compounding word is a pattern, patterns are '
@@ -766,8 +813,10 @@ def rule_split_closure(ctx, rep, langs=('de', 'it', 'nl')):
                     cache[piece] = False
             return cache[piece]
         nums = list(range(1, limit + 1)) + [k * 1000 for k in (1, 2, 21, 100, 999)]
-        for n in nums:
-            w = spell(lang, n)
+        words = [(n, spell(lang, n)) for n in nums]
+        if ctx.tier == 'thorough':
+            words += [(n, spell_ordinal(lang, n)) for n in range(1, limit + 1)]
+        for n, w in words:
             checked += 1
             try:
                 lem = ev.call_fn('lang::%s::lemmatize' % lang, [w]) if ctx.facts.body('lang::%s::lemmatize' % lang) else w
